@@ -110,7 +110,7 @@ def rule_v1(ctx, pl: Pipeline, writers) -> None:
         for s in st.stores:
             if pl.solved_col.text in s.keytexts and isinstance(s.value, ast.Constant) and s.value.value is False:
                 # a demotion after the last revert leaves the completed reaction in place: only the confidence filter may do that
-                ok = st.attr == "conf_predictor"
+                ok = st.attr == "conf_predictor" or _under_threshold_test(ctx, st, s)
                 ctx.instance("C03-V1", "demotion after the last revert in stage %d %s" % (st.index, st.label), s.where(), ok=ok)
                 if not ok:
                     ctx.finding("C03-V1", "%s:late-demotion" % s.func.qualname.split("synrbl.", 1)[-1], s.where(), "a row is demoted after the last revert, so it is returned unsolved with an edited reaction")
@@ -157,8 +157,9 @@ def rule_v2(ctx, pl: Pipeline) -> None:
     if fill is None:
         ctx.finding("C03-V2", "postprocess.Validator.check:issue-fill", last.callee.loc(), "Validator.check no longer sets the issue of an unsolved row with an empty issue to override_issue_msg")
     # (c) confidence filter
+    first_conf = min([x.index for x in pl.stages if x.attr == "conf_predictor"] or [10 ** 6])
     for st in pl.stages:
-        if st.attr != "conf_predictor":
+        if st.index < first_conf:
             continue
         dem = [s for s in st.stores if solved in s.keytexts and isinstance(s.value, ast.Constant) and s.value.value is False]
         for d in dem:
@@ -172,7 +173,24 @@ def rule_v2(ctx, pl: Pipeline) -> None:
                     ok = True
             ctx.instance("C03-V2", "confidence demotion writes an issue next to solved := False", d.where(), ok=ok)
             if not ok:
-                ctx.finding("C03-V2", "confidence_prediction.ConfidencePredictor.predict:demotion-issue", d.where(), "demotion does not write a non-empty issue in the same branch")
+                ctx.finding("C03-V2", "%s:demotion-issue" % d.func.qualname.split("synrbl.", 1)[-1], d.where(), "demotion does not write a non-empty issue in the same branch")
+
+
+def _under_threshold_test(ctx, st, store) -> bool:
+    """the store is guarded by a comparison with the Balancer's confidence threshold (the confidence filter, wherever it lives)"""
+    thr = ctx.balancer.get("confidence_threshold")
+    env = store.env or st.env
+    if env is None or not thr:
+        return False
+    for c, _p in store.raw_guards:
+        for n in ast.walk(c):
+            if isinstance(n, (ast.Name, ast.Attribute)):
+                try:
+                    if ctx.ev.eval(n, env) == thr:
+                        return True
+                except Exception:
+                    pass
+    return False
 
 
 def rule_v3(ctx, pl: Pipeline) -> None:
